@@ -13,6 +13,11 @@ ANCHORS = {
     "C13": [r"/syncer/bisync\.go", r"/syncer/bisync_rdb\.go"],
     "C19": [r"/pkg/redis/client/cluster/", r"/pkg/redis/client/cluster\.go"],
     "C16": [r"/syncer/replica\.go", r"/syncer/syncer_replica\.go", r"/pkg/store/", r"/syncer/memory_channel\.go"],
+    "C18": [r"/syncer/bisync\.go", r"/syncer/bisync_rdb\.go", r"/pkg/redis/checkpoint/bisync\.go", r"/pkg/redis/client/cluster/txn_batcher\.go"],
+    "C06": [r"/syncer/input\.go", r"/syncer/output\.go"],
+    "C17": [r"/pkg/redis/checkpoint/checkpoint\.go", r"/syncer/syncer\.go"],
+    "C15": [r"/pkg/cluster/", r"/pkg/redis/client/conn/"],
+    "C20": [r"/syncer/output\.go", r"/pkg/rdbrestore/", r"/syncer/bisync_rdb\.go"],
     "C01": [r"/syncer/output\.go"],
     "C02": [r"/syncer/output\.go"],
     "C09": [r"/syncer/output\.go"],
